@@ -296,7 +296,7 @@ pub fn main(ctx: &Ctx) -> ! {
     let strat = (case_strategy(gc, 2), any::<u8>()).boxed();
     campaign(
         ctx,
-        CampaignCfg { stream: "c10", cases: ctx.pick(1_500, 12_000), batch: 128, max_shrink: ctx.pick(600, 3000) },
+        CampaignCfg { stream: "c10", cases: ctx.pick(1_500, 50_000), batch: 128, max_shrink: ctx.pick(600, 3000) },
         &strat,
         &mut report,
         &|(g, mode): &(GenCase, u8)| realize(g, &vc, &allowed, mode % 20 < 17),
